@@ -161,6 +161,23 @@ def long_spec(rng):
     return spec
 
 
+def big_spec(rng, codec):
+    """One REQUIRED column whose single page body exceeds 64 KiB: half compressible (repeats at distances below and
+    above 64 KiB), half random."""
+    ptype = rng.choice(["INT64", "BYTE_ARRAY", "DOUBLE"])
+    root = pq.SchemaNode("schema", "REQUIRED", children=[pq.SchemaNode("v", "REQUIRED", ptype, 0)])
+    n = rng.choice([9000, 12000, 20000])
+    base = [pq.gen_leaf_value(rng, ptype, 0, False) for _ in range(n // 4)]
+    vals = (base + base[: n // 4] + [pq.gen_leaf_value(rng, ptype, 0, True) for _ in range(n // 4)] + base)[:n]
+    vals += [pq.gen_leaf_value(rng, ptype, 0, False) for _ in range(n - len(vals))]
+    if ptype == "BYTE_ARRAY":
+        vals = [v + b"0123456789" for v in vals]
+    col = pq.ColumnSpec([0] * n, [0] * n, vals, [pq.PageSpec(n, "PLAIN")], codec)
+    spec = pq.FileSpec(root, [pq.RowGroupSpec(n, [col])])
+    spec.features = {"directed": "big_page", "entries": n, "unsupported": None, "dictionary": False}
+    return spec
+
+
 def crafted_bitpacked(rng, count):
     """OPTIONAL columns of 32 rows whose BIT_PACKED definition levels (4 bytes, MSB first: only row 6 present) read as
     the little-endian length 2, followed by a value whose first two bytes are a legal RLE run of 32 zeros."""
@@ -276,12 +293,26 @@ def gen_cases(tier, rng):
     cases = []
     thorough = tier == "thorough"
 
-    def add(label, spec, expect="values", bad=(), key=None, data=None, family=""):
+    def add(label, spec, expect="values", bad=(), key=None, data=None, family="", chooser=None):
+        """chooser: (codec number, body) -> name of a framing of tools/pq_codecs.VARIANTS for the pages of this file."""
+        mark = len(pq_codecs.variant_log)
+        pq_codecs.variant_chooser = chooser
         try:
             d = data if data is not None else pq.write_file(spec, rng)
         except Exception as e:          # a generator bug must not pass silently
             raise RuntimeError(f"reference writer failed on {label}: {e!r}")
+        finally:
+            pq_codecs.variant_chooser = None
+        used = sorted(set(pq_codecs.variant_log[mark:]))
+        del pq_codecs.variant_log[mark:]
+        if used:
+            spec.features["codec_framings"] = ["%s:%s" % (pq_codecs.CODEC_NAMES.get(c, c), v) for c, v in used]
         cases.append(FileCase(label, spec, d, expect, bad, key, family))
+
+    def any_legal(c, body):
+        """a random framing among those a page may certainly hold"""
+        names = pq_codecs.legal_variants(c)
+        return rng.choice(names) if names else None
 
     # A. the systematic grid (360 cells per round)
     for rnd in range(20 if thorough else 4):
@@ -296,7 +327,7 @@ def gen_cases(tier, rng):
     for i in range(20000 if thorough else 2500):
         flags = {"dict_offset": rng.choice(["present", "absent"]), "split_inside_records": rng.random() < 0.3}
         spec = pq.gen_spec(rng, **flags)
-        add(f"random/{i}", spec, "values", family="random")
+        add(f"random/{i}", spec, "values", family="random", chooser=any_legal if i % 2 else None)
     # C. directed: level widths (max level 0..9 incl. 2^k - 1, 2^k), repetition depth 0..3, index widths
     lv = [(d, r) for d in range(0, 10) for r in range(0, min(d, 3) + 1)]
     for rnd in range(8 if thorough else 2):
@@ -311,6 +342,26 @@ def gen_cases(tier, rng):
         spec, data = width0_file(rng, rng.choice(["INT32", "INT64", "DOUBLE", "INT96", "BYTE_ARRAY", "FIXED_LEN_BYTE_ARRAY"]),
                                  rng.choice([1, 7, 8, 9, 30, 100]), rng.choice([None, "random", "random_nozero"]))
         add(f"idxwidth0/{i}", spec, "values", data=data, family="idxwidth")
+    # C1c. legal-but-unusual codec framings (tools/pq_codecs.VARIANTS): every framing of every codec, on every page of
+    #      the file (dictionary pages included): ZSTD frames without Frame_Content_Size (ZSTD_c_contentSizeFlag = 0,
+    #      ZSTD_compressStream2 in pieces, with flushes), with checksum, levels -5..19, several frames, a skippable
+    #      frame first; GZIP members with FEXTRA / FNAME / FCOMMENT / FHCRC, stored / fixed-Huffman / Huffman-only /
+    #      RLE-strategy blocks, a full flush in the middle; SNAPPY from libsnappy and literal-only blocks; LZ4_RAW from
+    #      LZ4_compress_default / _HC 3, 9, 12 / _fast and literal-only blocks.  GZIP 'members3' (three members in one
+    #      page) is of open legality: values or an error, never wrong data.
+    for cid, variants in pq_codecs.VARIANTS.items():
+        cname = pq_codecs.CODEC_NAMES[cid]
+        for vname, (_, legal) in variants.items():
+            for i in range(6 if thorough else 2):
+                spec = pq.gen_spec(rng, codec=cname, dict_offset=rng.choice(["present", "absent"]),
+                                   nested=(i % 2 == 1), max_rows=rng.choice([40, 40, 300]))
+                add(f"framing/{cname}/{vname}/{i}", spec, "values" if legal else "either",
+                    family="codec_framings" if legal else "codec_framings_open", chooser=(lambda c, b, v=vname: v))
+    # C1d. pages above 64 KiB (several snappy fragments, LZ4 / zstd / deflate windows in use)
+    for cname in ("SNAPPY", "GZIP", "ZSTD", "LZ4_RAW"):
+        for i in range(3 if thorough else 1):
+            spec = big_spec(rng, cname)
+            add(f"bigpage/{cname}/{i}", spec, "values", family="big_pages", chooser=any_legal)
     # C2. long streams: run headers of two varint bytes (RLE runs > 63 values, bit-packed runs > 63 groups), pages of
     #     thousands of entries
     for i in range(40 if thorough else 8):
@@ -620,9 +671,19 @@ def model_lines(case, limit_bytes=2500):
                 sub = h.get("data_page_header") or h.get("dictionary_page_header") or h.get("data_page_header_v2") or {}
                 f = (sub.get("num_values", 0), sub.get("encoding", 0), sub.get("definition_level_encoding", 0), sub.get("repetition_level_encoding", 0))
                 unc = "-"
-                if codec in (2, 6):
+                if codec == 6:
                     try:
-                        unc = "x" + pq_codecs.decompress(pq_codecs.CODEC_NAMES[codec], stored, p.uncompressed_size).hex()
+                        unc = "x" + pq_codecs.decompress("ZSTD", stored, p.uncompressed_size).hex()
+                    except Exception:
+                        unc = "!"
+                elif codec == 2:
+                    # what zlib's inflate(Z_FINISH) in gzip mode returns: the content of the FIRST member (it stops
+                    # with Z_STREAM_END there), an error when that member is incomplete or exceeds the capacity
+                    try:
+                        import zlib
+                        dz = zlib.decompressobj(31)
+                        u = dz.decompress(stored)
+                        unc = "x" + u.hex() if dz.eof and len(u) <= max(p.uncompressed_size, 0) else "!"
                     except Exception:
                         unc = "!"
                 toks.append(":".join([str(h.get("type", 0)), str(f[0]), str(f[1]), str(f[2]), str(f[3]), str(p.uncompressed_size), "x" + stored.hex(), unc]))
